@@ -85,6 +85,7 @@ func SaveConfig() error {
 		// getData() because someone could lock and change it
 		// while we are marshaling the value (i.e. for string slices).
 		// We NEED to keep the option locks until we finsihed.
+		verifYield("SaveConfig:option-lock")
 		option.Lock()
 		defer option.Unlock()
 
